@@ -49,6 +49,8 @@ def strategy_(draw):
         "water": {"T": draw(st.floats(60.0, 400.0)), "p": draw(st.one_of(st.floats(15.0, 15000.0), gens.loguniform(15.0, 15000.0)))},
         "tpc": draw(st.floats(-120.0, 0.0)),
         "ppc": draw(st.floats(550.0, 800.0)),
+        # standard conditions: the defaults (60 F, 14.7 psia) or another common pressure / temperature base
+        "std": draw(st.one_of(st.none(), st.tuples(st.sampled_from([60.0, 59.0, 68.0, 32.0]), st.sampled_from([14.7, 14.65, 14.696, 14.73, 15.025])))),
     }
 
 
@@ -136,12 +138,17 @@ def check_case(case) -> Result:
     if p / ppc > 30.0:
         res.labels["co_skipped_pr_gt_30"] = True
         return res
-    co = float(lib("oil_compressibility_Standing", O.oil_compressibility_Standing, T, p, api, sg, gor, tpc, ppc))
+    std = tuple(case["std"]) if case.get("std") else (60, 14.7)
+    if case.get("std"):
+        co = float(lib("oil_compressibility_Standing", O.oil_compressibility_Standing, T, p, api, sg, gor, tpc, ppc, temperature_standard=std[0], pressure_standard=std[1]))
+        res.labels["standard_conditions"] = "non-default"
+    else:
+        co = float(lib("oil_compressibility_Standing", O.oil_compressibility_Standing, T, p, api, sg, gor, tpc, ppc))
     if p >= pb:
         want = float(lib("oil_compressibility_undersat_Spivey", O.oil_compressibility_undersat_Spivey, T, p, api, sg, gor))
         res.check("C13/co-undersaturated", abs(co - want), 1e-13 * abs(want), f"oil_compressibility_Standing={co!r} Spivey={want!r} at p={p!r} >= p_b;")
     else:
-        bg = float(lib("b_factor_DAK", G.b_factor_DAK, T, p, tpc, ppc, 60, 14.7))
+        bg = float(lib("b_factor_DAK", G.b_factor_DAK, T, p, tpc, ppc, std[0], std[1]))
         dbo = float(lib("db_o_dgor_Standing", O.db_o_dgor_Standing, T, api, sg, rs_p))
         drs = float(lib("dgor_dpressure_Standing", O.dgor_dpressure_Standing, T, p, api, sg, gor))
         num = (bg - dbo) * drs
